@@ -46,8 +46,11 @@ type c02Scn struct {
 	// first holds the password the BMC knows and is used for a session to
 	// another BMC, then it is overwritten in place with the caller's (different)
 	// password for the handshake under test
-	BufReuse bool   `json:"buf_reuse,omitempty"`
-	Username string `json:"username"`
+	BufReuse bool `json:"buf_reuse,omitempty"`
+	// FirstLost: the first reply to each setup payload is lost (the BMC has processed
+	// the request); mutations apply to the reply to the retransmission
+	FirstLost bool   `json:"first_lost,omitempty"`
+	Username  string `json:"username"`
 }
 
 type c02Replay struct {
@@ -259,6 +262,10 @@ func c02Near(n int) (pw, bmcPw, kg, bmcKG []byte) {
 		pw, bmcPw = []byte{}, []byte{0x01}
 		bmcKG = append([]byte{}, kg...)
 		bmcKG[19] ^= 0x80
+	case 8: // twenty zero bytes as KG against a BMC without a KG (it keys the SIK with the password)
+		pw, bmcPw = []byte("s3cret-pass"), []byte("s3cret-pasS")
+		kg = make([]byte, 20)
+		bmcKG = []byte{}
 	case 7: // same bytes in another order
 		pw, bmcPw = []byte("s3cret-pass"), []byte("3scret-pass")
 		bmcKG = append([]byte{}, kg...)
@@ -267,7 +274,7 @@ func c02Near(n int) (pw, bmcPw, kg, bmcKG []byte) {
 	return
 }
 
-const c02Nears = 7
+const c02Nears = 8
 
 func c02Exec(scn c02Scn, ch *env.Chooser) *c02Obs {
 	cfg := defaultConfig()
@@ -327,6 +334,7 @@ func c02Exec(scn c02Scn, ch *env.Chooser) *c02Obs {
 	w := newWorld(cfg, ch, nil)
 	o := &c02Obs{}
 	sticky := map[byte]*hsMut{}
+	lostOnce := map[byte]bool{}
 	w.T.Menu = func(t *env.Transport, req []byte) []env.Answer {
 		if len(req) < 6 {
 			return []env.Answer{env.Honest()}
@@ -354,6 +362,10 @@ func c02Exec(scn c02Scn, ch *env.Chooser) *c02Obs {
 		}
 		if m := sticky[pt]; m != nil {
 			return []env.Answer{mk(m)}
+		}
+		if scn.FirstLost && !lostOnce[pt] {
+			lostOnce[pt] = true
+			return []env.Answer{env.LostReply()}
 		}
 		ms := hsMutations(pt, scn.Suite, scn.Reduced || (scn.SecondReduced && len(o.Applied) > 0))
 		out := []env.Answer{env.Honest()}
@@ -484,6 +496,12 @@ func runC02(r *rep.R) {
 			variants = append(variants, variant)
 		}
 		variants = append(variants,
+			c02Scn{Suite: s, Username: "admin", FirstLost: true},
+			c02Scn{Suite: s, Username: "admin", UseKG: true, WrongKG: true, FirstLost: true},
+			// the same handshake for a suite without per-packet integrity: the
+			// RAKP 4 integrity check value is part of authentication, not of that
+			c02Scn{Suite: ref.Suite{Auth: s.Auth, Integ: 0, Conf: 1}, Username: "admin"},
+			c02Scn{Suite: ref.Suite{Auth: s.Auth, Integ: 0, Conf: 1}, Username: "admin", UseKG: true, WrongKG: true},
 			c02Scn{Suite: s, Username: "admin", WrongPw: true, BufReuse: true},
 			c02Scn{Suite: s, Username: "admin", UseKG: true, WrongPw: true, BufReuse: true})
 		for n := 1; n <= c02Nears; n++ {
@@ -522,7 +540,7 @@ func runC02(r *rep.R) {
 }
 
 func c02Explore(r *rep.R, scn c02Scn, bound int, idx *int64) {
-	tag := fmt.Sprintf("c02/%v/pw%v/kg%v/%v/red%v/%v/%v/u%d/near%d/buf%v", scn.Suite, scn.WrongPw, scn.WrongKG, scn.UseKG, scn.Reduced, scn.SecondReduced, scn.LongSecret, len(scn.Username), scn.Near, scn.BufReuse)
+	tag := fmt.Sprintf("c02/%v/pw%v/kg%v/%v/red%v/%v/%v/u%d/near%d/buf%v/lost%v", scn.Suite, scn.WrongPw, scn.WrongKG, scn.UseKG, scn.Reduced, scn.SecondReduced, scn.LongSecret, len(scn.Username), scn.Near, scn.BufReuse, scn.FirstLost)
 	e := &env.Explorer{R: r, Bound: bound, Scenario: tag, Idx: idx,
 		Run: func(ch *env.Chooser) any { return c02Exec(scn, ch) },
 	}
